@@ -37,6 +37,68 @@ def token_text(t):
     return SPELL.get(t.type)
 
 
+class MonitorBlind(Exception):
+    """a monitor cannot observe what it needs (an attribute it relied on is gone): the run is inconclusive"""
+
+
+MONITOR_ERRORS = []          # process-wide: reasons why a monitor could not observe (-> INCONCLUSIVE, never a violation)
+_cursor_attr = {}
+
+
+def note_blind(where, exc):
+    msg = "%s: %s: %s" % (where, type(exc).__name__, str(exc)[:160])
+    if msg not in MONITOR_ERRORS and len(MONITOR_ERRORS) < 20:
+        MONITOR_ERRORS.append(msg)
+
+
+def cursor(lx):
+    """raw offset of the next unread character of a Lexer: through the in-tree hook when the tree has it (and
+    NORMINETTE_VERIF is set), else the one integer attribute that is 0 on a fresh lexer"""
+    f = getattr(lx, "_verif_cursor", None)
+    if f is not None:
+        try:
+            return f()
+        except AttributeError:
+            pass                    # a stale hook (attribute renamed under it): fall back to the heuristic
+    cls = type(lx)
+    name = _cursor_attr.get(cls)
+    if name is None:
+        probe = cls.__new__(cls)
+        try:
+            import norminette.file
+            cls.__init__(probe, norminette.file.File("probe.c", "x"))
+        except Exception as e:
+            raise MonitorBlind("cannot build a probe lexer: %r" % e)
+        zero = [k for k, v in vars(probe).items() if type(v) is int and v == 0]
+        if len(zero) != 1:
+            raise MonitorBlind("no unique cursor attribute on Lexer (candidates %r)" % zero)
+        name = _cursor_attr[cls] = zero[0]
+    return getattr(lx, name)
+
+
+def errors_list(errs):
+    """the diagnostics of an Errors object in insertion order, without sorting them"""
+    f = getattr(errs, "_verif_items", None)
+    if f is not None:
+        try:
+            return f()
+        except AttributeError:
+            pass
+    cands = []
+    slots = getattr(type(errs), "__slots__", ()) or ()
+    if isinstance(slots, str):
+        slots = (slots,)
+    for k in slots:
+        if isinstance(k, str) and isinstance(getattr(errs, k, None), list):
+            cands.append(getattr(errs, k))
+    for v in getattr(errs, "__dict__", {}).values():
+        if isinstance(v, list):
+            cands.append(v)
+    if len(cands) != 1:
+        raise MonitorBlind("no unique list inside Errors")
+    return cands[0]
+
+
 class Session:
     """what one monitored execution produced"""
 
@@ -80,30 +142,44 @@ def _wrap_lexer():
     def line_pos(self):
         r = orig_lp(self)
         if CUR[0] is not None:
-            st = _lexer_state(self)
-            st["lp"].append((self._Lexer__pos, r))
+            try:
+                st = _lexer_state(self)
+                st["lp"].append((cursor(self), r))
+            except Exception as e:         # the monitor must never disturb the tool
+                note_blind("M-LEX.line_pos", e)
         return r
 
     def get_next_token(self):
         s = CUR[0]
         if s is None:
             return orig_next(self)
-        st = _lexer_state(self)
-        outer = st["depth"] == 0
-        if outer:
-            st["lp"] = []
-            st["entry"] = self._Lexer__pos
-        st["depth"] += 1
+        outer = False
+        st = None
+        try:
+            st = _lexer_state(self)
+            outer = st["depth"] == 0
+            if outer:
+                st["lp"] = []
+                st["entry"] = cursor(self)
+            st["depth"] += 1
+        except Exception as e:
+            note_blind("M-LEX.enter", e)
+            st = None
         try:
             t = orig_next(self)
         except BaseException as e:
-            st["depth"] -= 1
-            if outer and not isinstance(e, StepBudgetExceeded):
-                s.lex_exc = (type(e).__name__, _innermost(e))
+            if st is not None:
+                st["depth"] -= 1
+                if outer and not isinstance(e, StepBudgetExceeded):
+                    s.lex_exc = (type(e).__name__, _innermost(e))
             raise
-        st["depth"] -= 1
-        if outer:
-            _observe_token(s, self, st, t)
+        if st is not None:
+            st["depth"] -= 1
+            if outer:
+                try:
+                    _observe_token(s, self, st, t)
+                except Exception as e:
+                    note_blind("M-LEX.observe", e)
         return t
 
     Lexer.line_pos = line_pos
@@ -112,7 +188,7 @@ def _wrap_lexer():
 
 def _observe_token(s, lx, st, t):
     src = lx.file.source
-    end = lx._Lexer__pos
+    end = cursor(lx)
     if t is None:
         # end of input: everything after the last token must be splices/bad lexemes
         _check_gap(s, src, st["prev_end"], len(src), end_of_input=True)
@@ -286,11 +362,21 @@ def _wrap_errors():
     orig_add = Errors.add
 
     def add(self, *args, **kwargs):
-        before = len(self._inner)
-        r = orig_add(self, *args, **kwargs)
         s = CUR[0]
-        if s is not None and len(self._inner) == before + 1:
-            _observe_diag(s, self._inner[-1])
+        before = None
+        if s is not None:
+            try:
+                before = len(errors_list(self))
+            except Exception as e:
+                note_blind("M-DIAG.before", e)
+        r = orig_add(self, *args, **kwargs)
+        if s is not None and before is not None:
+            try:
+                items = errors_list(self)
+                if len(items) == before + 1:
+                    _observe_diag(s, items[-1])
+            except Exception as e:
+                note_blind("M-DIAG.observe", e)
         return r
 
     Errors.add = add
@@ -333,86 +419,117 @@ def _wrap_registry():
         s = CUR[0]
         if s is None:
             return orig_run(self, context)
-        st = context.__dict__.setdefault("_nv", {})
-        st.update({"depth": 0, "pending": None, "popped": 0, "in_run": True,
-                   "total": len(context.tokens), "tried": 0})
-        s.tokens_total = len(context.tokens)
+        st = None
+        try:
+            st = context.__dict__.setdefault("_nv", {})
+            st.update({"depth": 0, "pending": None, "popped": 0, "in_run": True,
+                       "total": len(context.tokens), "tried": 0})
+            s.tokens_total = len(context.tokens)
+        except Exception as e:
+            note_blind("M-SEG.run.enter", e)
+            st = None
         try:
             r = orig_run(self, context)
         except CParsingError:
             s.ended = "fatal"
-            st["in_run"] = False
+            if st is not None:
+                st["in_run"] = False
             raise
         except BaseException:
             s.ended = "exception"
-            st["in_run"] = False
+            if st is not None:
+                st["in_run"] = False
             raise
-        st["in_run"] = False
         s.ended = "normal"
-        s.count("seg.tiling")
-        if st["popped"] != st["total"] or context.tokens:
-            s.seg_fail.append(("TILING", st["popped"], st["total"], len(context.tokens)))
-        s.count("seg.unrecognised_implies_fatal")
-        if s.unrec and context.debug == 0:
-            s.seg_fail.append(("UNRECOGNISED_NOT_FATAL", s.unrec[0]))
+        if st is not None:
+            st["in_run"] = False
+            try:
+                s.count("seg.tiling")
+                if st["popped"] != st["total"] or context.tokens:
+                    s.seg_fail.append(("TILING", st["popped"], st["total"], len(context.tokens)))
+                s.count("seg.unrecognised_implies_fatal")
+                if s.unrec and context.debug == 0:
+                    s.seg_fail.append(("UNRECOGNISED_NOT_FATAL", s.unrec[0]))
+            except Exception as e:
+                note_blind("M-SEG.run.exit", e)
         return r
 
     def run_rules(self, context, rule):
         s = CUR[0]
-        st = context.__dict__.get("_nv")
+        st = context.__dict__.get("_nv") if hasattr(context, "__dict__") else None
         if s is None or st is None or not st.get("in_run"):
             return orig_rr(self, context, rule)
-        top = st["depth"] == 0 and context.state == "running"
-        st["depth"] += 1
-        if not top:
-            s.checks_run += 1
+        top = False
+        pre = None
         try:
-            if top:
-                sb = _scope_sig(context)
-                ntok = len(context.tokens)
-                first = context.tokens[0] if context.tokens else None
-            ret, read = orig_rr(self, context, rule)
+            top = st["depth"] == 0 and context.state == "running"
+            st["depth"] += 1
+            if not top:
+                s.checks_run += 1
+            else:
+                pre = (_scope_sig(context), len(context.tokens), context.tokens[0] if context.tokens else None)
+        except Exception as e:
+            note_blind("M-SEG.run_rules.enter", e)
+            top = False
+        try:
+            res = orig_rr(self, context, rule)
         finally:
-            st["depth"] -= 1
-        if top:
-            st["tried"] += 1
-            if ret is True:
-                s.count("seg.jump_positive")
-                if not (isinstance(read, int) and read >= 1):
-                    s.seg_fail.append(("JUMP_NOT_POSITIVE", rule.__name__, read))
-                st["pending"] = (rule.__name__, read, ntok, first, sb)
-        return ret, read
+            try:
+                st["depth"] -= 1
+            except Exception:
+                pass
+        if top and pre is not None:
+            try:
+                ret, read = res
+                st["tried"] += 1
+                if ret is True:
+                    s.count("seg.jump_positive")
+                    if not (isinstance(read, int) and read >= 1):
+                        s.seg_fail.append(("JUMP_NOT_POSITIVE", getattr(rule, "__name__", str(rule)), read))
+                    st["pending"] = (getattr(rule, "__name__", str(rule)), read, pre[1], pre[2], pre[0])
+            except Exception as e:
+                note_blind("M-SEG.run_rules.exit", e)
+        return res
 
     def pop_tokens(self, stop):
         s = CUR[0]
-        st = self.__dict__.get("_nv")
+        st = self.__dict__.get("_nv") if hasattr(self, "__dict__") else None
         if s is None or st is None or not st.get("in_run"):
             return orig_pop(self, stop)
-        before = len(self.tokens)
-        toks = self.tokens
+        before = toks = None
+        try:
+            before = len(self.tokens)
+            toks = self.tokens
+        except Exception as e:
+            note_blind("M-SEG.pop.enter", e)
         r = orig_pop(self, stop)
-        popped = before - len(self.tokens)
-        st["popped"] += popped
-        pend = st["pending"]
-        if pend is not None:
-            name, read, ntok, first, sb = pend
-            st["pending"] = None
-            s.count("seg.pop_equals_jump")
-            if stop != read:
-                s.seg_fail.append(("POP_NE_JUMP", name, read, stop))
-            over = read > before
-            last = toks[min(read, before) - 1] if before and read >= 1 else None
-            s.stmts.append((name, read, popped, first.type if first else None,
-                            tuple(first.pos) if first else None,
-                            last.type if last else None, sb, _scope_sig(self), over))
-            s.stmt_index += 1
-        else:
-            # nothing matched since the last pop: the registry drops what it could not recognise
-            for t in toks[:max(popped, 1)]:
-                s.unrec.append((t.type, tuple(t.pos)))
-            s.count("seg.unrecognised_pop_progress")
-            if before and popped < 1:
-                s.seg_fail.append(("UNRECOGNISED_POP_NO_PROGRESS", stop))
+        if before is None:
+            return r
+        try:
+            popped = before - len(self.tokens)
+            st["popped"] += popped
+            pend = st["pending"]
+            if pend is not None:
+                name, read, ntok, first, sb = pend
+                st["pending"] = None
+                s.count("seg.pop_equals_jump")
+                if stop != read:
+                    s.seg_fail.append(("POP_NE_JUMP", name, read, stop))
+                over = read > before
+                last = toks[min(read, before) - 1] if before and read >= 1 else None
+                s.stmts.append((name, read, popped, first.type if first else None,
+                                tuple(first.pos) if first else None,
+                                last.type if last else None, sb, _scope_sig(self), over))
+                s.stmt_index += 1
+            else:
+                # nothing matched since the last pop: the registry drops what it could not recognise
+                for t in toks[:max(popped, 1)]:
+                    s.unrec.append((t.type, tuple(t.pos)))
+                s.count("seg.unrecognised_pop_progress")
+                if before and popped < 1:
+                    s.seg_fail.append(("UNRECOGNISED_POP_NO_PROGRESS", stop))
+        except Exception as e:
+            note_blind("M-SEG.pop.exit", e)
         return r
 
     Registry.run = run
